@@ -7,7 +7,7 @@ N = 0xFFFFFFFFFFFFFFFFFFFFFFFFFFFFFFFEBAAEDCE6AF48A03BBFD25E8CD0364141
 
 def run(ctx):
     from bitcoinlib.keys import Key, HDKey, get_key_format
-    from bitcoinlib.networks import NETWORK_DEFINITIONS
+    from bitcoinlib.networks import NETWORK_DEFINITIONS, Network
     rng = ctx.rng
     T = ctx.thorough
     ctx.rule = ('secrets with forced first/last bytes (..00, ..01, 02.., 03.., 04.., leading zero bytes) and random; every network x '
@@ -97,6 +97,42 @@ def run(ctx):
                                  observed=(k4.public_hex, k4.compressed, k4.is_private))
                     except Exception as e:
                         viol('valid public key representation refused', form=name, value=str(rep), error=repr(e)[:100])
+    # one object, exports before and after its network is changed (and with explicit version bytes in between): the export always
+    # describes the object as it is now, whatever an earlier call left in a cache
+    for d in (secrets if T else rng.sample(secrets, min(len(secrets), 6))):
+        n1, n2 = rng.sample(nets, 2)
+        comp = rng.random() < 0.7
+        for kind in ('Key', 'HDKey'):
+            k = Key(d, network=n1, compressed=comp) if kind == 'Key' else HDKey(d.to_bytes(32, 'big'), chain=b'\x07' * 32, network=n1, compressed=comp)
+            export = (lambda **kw: k.wif(**kw)) if kind == 'Key' else (lambda **kw: k.wif_key(**kw))
+            steps = ['export', 'prefix', 'change', 'export', 'prefix', 'export', 'back', 'export']
+            if rng.random() < 0.5:
+                steps = steps[2:]
+            cur = n1
+            for st in steps:
+                ctx.count('wif-history:' + kind + ':' + st)
+                try:
+                    if st == 'export':
+                        enc_cases.append(('wif_enc %s %d %d' % (cur, d, 1 if comp else 0), export(), True))
+                    elif st == 'prefix':
+                        other = rng.choice(nets)
+                        w = export(prefix=NETWORK_DEFINITIONS[other]['prefix_wif'])
+                        enc_cases.append(('wif_enc %s %d %d' % (other, d, 1 if comp else 0), w, True))
+                    elif st == 'change':
+                        cur = n2
+                        if kind == 'HDKey':
+                            k.network_change(n2)
+                        else:
+                            k.network = Network(n2)
+                    else:
+                        cur = n1
+                        if kind == 'HDKey':
+                            k.network_change(n1)
+                        else:
+                            k.network = Network(n1)
+                except Exception as e:
+                    viol('export on an object whose network was changed fails', kind=kind, step=st, networks=[n1, n2], error=repr(e)[:120])
+                    break
     ctx.compare(enc_cases, 'wif-export')
     ctx.compare(dec_cases, 'wif-import')
 
@@ -174,6 +210,23 @@ def run(ctx):
             ctx.count('xkey-export-history')
             enc_cases.append(('xkey_enc %s %d %s %d %d %s %d %s %s' % (net, priv, wt, ms, k.depth, k.parent_fingerprint.hex(),
                                                                        k.child_index, k.chain.hex(), kd.hex()), s_, True))
+    # ... and across a network change of the object
+    for _ in range(6 if T else 2):
+        n1, n2 = rng.sample(nets, 2)
+        k = HDKey.from_seed(bytes(rng.randrange(256) for _ in range(32)), network=n1).subkey_for_path("m/3'/1")
+        for cur in (n1, n2, n1):
+            if cur != k.network.name:
+                k.network_change(cur)
+            for priv in (True, False):
+                try:
+                    s_ = k.wif(is_private=priv)
+                except Exception:
+                    ctx.count('no-prefix-for-history-call')
+                    continue
+                kd = (b'\0' + k.private_byte) if priv else k.public_byte
+                ctx.count('xkey-export-network-change')
+                enc_cases.append(('xkey_enc %s %d %s %d %d %s %d %s %s' % (cur, priv, k.witness_type, bool(k.multisig), k.depth, k.parent_fingerprint.hex(),
+                                                                           k.child_index, k.chain.hex(), kd.hex()), s_, True))
     ctx.compare(enc_cases, 'xkey-export')
 
     res = run_driver(['xkey_dec ' + s for s, *_ in imports])
